@@ -19,7 +19,8 @@ EXPLANATION = (
     "static/glob) must not restore a leading './' after translation. In translate/translate_back every value built "
     "with a join is normalised before it is returned on every path. The environment variables assigned in "
     "_run_command equal RESERVED_ENV_VARS and are assigned after the overrides; the clean tool translates on the way "
-    "in and back on the way out. Does not decide the arithmetic of translate for all '..'/absolute/nested combinations."
+    "in and back on the way out. Does not decide the arithmetic of translate for all '..'/absolute/nested combinations. "
+    'Also (R-C20-6): translate/translate_back compute root-relative paths with relpath on normalised paths, never by cutting a string prefix.'
 )
 ASSUMPTIONS = ["Path.normpath and Path.relpath behave like os.path.normpath / os.path.relpath"]
 
